@@ -15,14 +15,18 @@ for f in sorted(glob.glob(os.path.join(V, "work", "mutants_*.log")), key=os.path
             continue
         res.setdefault(sid, {}).update({p: {"verdict": v["verdict"], "also_charged": v.get("by_property")} for p, v in r.items() if v["verdict"] != "tool-error"})
 json.dump(res, open(os.path.join(V, "seeded", "RESULTS.json"), "w"), indent=1, sort_keys=True)
-print("| seeded change | what it needs | check run | verdict | properties charged in that run |")
-print("|---|---|---|---|---|")
+print("| seeded change | kind | what it needs / what changes | check run | verdict | properties charged in that run |")
+print("|---|---|---|---|---|---|")
 for sid in sorted(res):
     mp = os.path.join(V, "seeded", sid, "meta.json")
     meta = json.load(open(mp)) if os.path.exists(mp) else {}
+    kind = meta.get("kind") or ("revert of a fix: commit" if sid.startswith("F") else "violating")
+    what = meta.get("needs_to_manifest") or meta.get("what_changes") or meta.get("note") or meta.get("origin") or ""
+    if meta.get("also_breaks"):
+        what += " [also breaks %s]" % ", ".join(meta["also_breaks"])
     for p, v in sorted(res[sid].items()):
         also = ", ".join("%s:%d" % kv for kv in sorted((v["also_charged"] or {}).items()))
-        print("| %s | %s | %s | %s | %s |" % (sid, (meta.get("needs_to_manifest") or meta.get("origin") or "")[:150], p, v["verdict"], also))
-caught = sum(1 for s in res.values() for v in s.values() if v["verdict"] == "caught")
-total = sum(len(s) for s in res.values())
-print("\n%d of %d (seed, check) pairs caught" % (caught, total))
+        print("| %s | %s | %s | %s | %s | %s |" % (sid, kind, what.replace("|", "/")[:220], p, v["verdict"], also))
+vs = [v["verdict"] for s in res.values() for v in s.values()]
+print("\nviolating changes: %d caught, %d missed; neutral changes: %d quiet, %d false alarms" %
+      (vs.count("caught"), vs.count("missed"), vs.count("quiet"), vs.count("false-alarm")))
